@@ -967,6 +967,103 @@ def check_derived_state(ctx: Ctx):
         ctx.ok("R15.10", None, None, "package:derived-state", f"{n} classes scanned: every rewrite of an attribute recomputes what was derived from it", None, nontrivial=False)
 
 
+def _late_binding_closures(tree) -> list:
+    """(closure node, loop variable, loop node): a lambda / nested def made in the body of a for loop that reads the loop
+    variable when it is CALLED (no default argument binds it) and is kept for later - stored, appended, returned - so
+    that every closure made by the loop sees the last item.  Closures in which the loop variable only reaches the
+    text of an exception / message are left out (they misreport, they do not misbehave)."""
+    out = []
+    for loop in ast.walk(tree):
+        if not isinstance(loop, (ast.For, ast.AsyncFor)):
+            continue
+        lvars = {n.id for n in ast.walk(loop.target) if isinstance(n, ast.Name)}
+        if not lvars:
+            continue
+        parents = {}
+        for st in loop.body:
+            for n in ast.walk(st):
+                for ch in ast.iter_child_nodes(n):
+                    parents[id(ch)] = n
+        for st in loop.body:
+            for fn in ast.walk(st):
+                if not isinstance(fn, (ast.Lambda, ast.FunctionDef)):
+                    continue
+                a = fn.args
+                own = {x.arg for x in a.posonlyargs + a.args + a.kwonlyargs} | ({a.vararg.arg} if a.vararg else set()) | ({a.kwarg.arg} if a.kwarg else set())
+                body_nodes = [fn.body] if isinstance(fn, ast.Lambda) else fn.body
+                reads = []
+                for b in body_nodes:
+                    for n in ast.walk(b):
+                        if isinstance(n, ast.Name) and isinstance(n.ctx, ast.Load) and n.id in lvars and n.id not in own:
+                            reads.append(n)
+                if not reads:
+                    continue
+
+                def only_in_message(n):
+                    cur = n
+                    inner = {}
+                    for b in body_nodes:
+                        for x in ast.walk(b):
+                            for ch in ast.iter_child_nodes(x):
+                                inner[id(ch)] = x
+                    while id(cur) in inner:
+                        cur = inner[id(cur)]
+                        if isinstance(cur, ast.JoinedStr):
+                            return True
+                        if isinstance(cur, ast.Call) and (dotted(cur.func) or "").split(".")[-1].endswith(("Exception", "Error", "Warning", "warn")):
+                            return True
+                    return False
+
+                if all(only_in_message(n) for n in reads):
+                    continue
+                # kept for later?  a lambda that is an argument of a call made right here (sorted(key=...), map, max) is used up
+                par = parents.get(id(fn))
+                if isinstance(fn, ast.Lambda):
+                    kept = False
+                    cur, p_ = fn, par
+                    while p_ is not None:
+                        if isinstance(p_, ast.Call) and cur is not p_.func:
+                            callee = (dotted(p_.func) or "").split(".")[-1]
+                            kept = callee in ("partial", "append", "setdefault", "update", "add", "insert", "register")
+                            if not kept:
+                                break
+                        if isinstance(p_, (ast.Assign, ast.AnnAssign, ast.Return, ast.Yield, ast.Dict, ast.List, ast.Tuple)) and not isinstance(p_, ast.Call):
+                            if isinstance(p_, (ast.Assign, ast.AnnAssign, ast.Return, ast.Yield)):
+                                kept = True
+                                break
+                        cur, p_ = p_, parents.get(id(p_))
+                    if not kept:
+                        continue
+                else:
+                    # a nested def: kept if its name is used other than by calling it in the loop body
+                    uses = [n for st2 in loop.body for n in ast.walk(st2) if isinstance(n, ast.Name) and n.id == fn.name and isinstance(n.ctx, ast.Load)]
+                    if not any(not (isinstance(parents.get(id(u)), ast.Call) and parents[id(u)].func is u) for u in uses):
+                        continue
+                out.append((fn, sorted({n.id for n in reads})[0], loop))
+    return out
+
+
+def check_late_binding(ctx: Ctx):
+    """R15.11 (frame condition of every rule that reads a function table or alias table off the source): closures made
+    in a loop and kept for later bind the loop variable when called - all of them then act on the last item."""
+    prog = ctx.prog
+    probe = ast.parse("def f(table, ns):\n    for old, func in table.items():\n        ns[old] = lambda *a, **k: func(*a, **k)\n\ndef g(table, ns):\n    for old, func in table.items():\n        ns[old] = lambda *a, _f=func, **k: _f(*a, **k)\n\ndef h(ms, out):\n    for m in ms:\n        out[m] = lambda r: KeyError(f'{m} not set')\n        xs = sorted(ms, key=lambda x: x == m)\n")
+    got = [len(_late_binding_closures(fn)) for fn in probe.body]
+    if got != [1, 0, 0]:
+        ctx.undecided("R15.11.floor", None, None, "floor:R15.11", f"the built-in examples give {got}: rule broken")
+        return
+    hits = 0
+    n_mod = 0
+    for m in prog.modules.values():
+        n_mod += 1
+        for fn, var, loop in _late_binding_closures(m.tree):
+            hits += 1
+            f = next((x for x in prog.functions.values() if x.module is m and x.node.lineno <= fn.lineno <= getattr(x.node, "end_lineno", x.node.lineno)), None)
+            ctx.violated("R15.11", f, fn, f"{m.name}:{getattr(fn, 'lineno', 0)}:{var}", f"a closure made in a loop and kept for later reads the loop variable `{var}` when it is called: every closure the loop made acts on the last item", {"closure": norm(fn)[:100]})
+    if hits == 0:
+        ctx.ok("R15.11", None, None, "package:late-binding-closures", f"{n_mod} modules scanned: no stored closure reads a loop variable late", None, nontrivial=False)
+
+
 def check_state_writers(ctx: Ctx):
     prog = ctx.prog
     roots = [prog.cls("utils.config:SupportsConfig")]
@@ -1247,6 +1344,7 @@ def check(ctx: Ctx):
     _run_rule(ctx, "R15.5", check_map_helpers)
     _run_rule(ctx, "check_state_writers", check_state_writers)
     _run_rule(ctx, "R15.10", check_derived_state)
+    _run_rule(ctx, "R15.11", check_late_binding)
     _run_rule(ctx, "check_globals", check_globals)
     _run_rule(ctx, "check_state_through_callees", check_state_through_callees)
     _run_rule(ctx, "check_ctor_purity", check_ctor_purity)
